@@ -25,20 +25,64 @@ type c08Case struct {
 	UID string `json:"u_id,omitempty"`
 }
 
-// rel holds the five relation results for one ordered pair.
+// rel holds the relation results for one ordered pair.
 type rel struct {
-	r       [5]bool
+	eq      bool    // S.Equal(T) in the checker
+	raw     [3]bool // the three *WithoutEquality* relations (only evaluated when !eq)
+	r       [3]bool // full relations: eq||hand-written, interpreter.IsSubType, IsSubTypeOfSemaType
 	panicAt string
-	eqSema  bool
-	eqStat  bool
+	ft1     bool // generated static relation skipped (known finding FT1)
+	ft2     bool // run-time/checker disagreement matching known finding FT2
 }
 
-var relNames = [5]string{
-	"sema.IsSubTypeWithoutComparison (hand-written)",
-	"Equal || sema.CheckSubTypeWithoutEquality_gen",
-	"Equal || interpreter.CheckSubTypeWithoutEquality_gen",
+var rawNames = [3]string{
+	"sema.CheckSubTypeWithoutEquality (hand-written)",
+	"sema.CheckSubTypeWithoutEquality_gen",
+	"interpreter.CheckSubTypeWithoutEquality_gen",
+}
+
+var relNames = [3]string{
+	"sema.IsSubTypeWithoutComparison",
 	"interpreter.IsSubType",
 	"interpreter.IsSubTypeOfSemaType",
+}
+
+// knownFT1 is set when finding FT1 is listed as known: the generated static
+// relation panics on two different InclusiveRange<T> types at the root
+// (InclusiveRangeStaticType{}.Equal dereferences the nil element type of the
+// base type). Only that one relation is skipped for such pairs.
+var knownFT1 bool
+
+func ft1(ss, st interpreter.StaticType) bool {
+	a, ok1 := ss.(interpreter.InclusiveRangeStaticType)
+	b, ok2 := st.(interpreter.InclusiveRangeStaticType)
+	return ok1 && ok2 && a.ElementType != nil && b.ElementType != nil && !a.ElementType.Equal(b.ElementType)
+}
+
+// knownFT2 is set when finding FT2 is listed as known. Root cause: the checker's
+// `T <: AnyResource` rule asks T.IsResourceType(), which is false for containers
+// of `Never` (`Never?`, `[Never]`, `{String: Never}` ...), although covariance
+// makes those containers subtypes of containers of resources. Two symptoms:
+//   - pairs: the run-time shortcut for optionals (IsSubTypeOfSemaType strips the
+//     optional before asking) answers `Never? <: AnyResource` = true, the checker false;
+//   - triples: C[Never] <: C[R] and C[R] <: AnyResource but not C[Never] <: AnyResource.
+var knownFT2 bool
+
+func isNever(x sema.Type) bool       { return x == sema.NeverType }
+func isAnyResource(x sema.Type) bool { return x == sema.AnyResourceType }
+
+// ft2Pair: S = Never wrapped in >= 1 optionals, T = AnyResource wrapped in >= 0 optionals.
+func ft2Pair(s, t sema.Type) bool {
+	so, ok := s.(*sema.OptionalType)
+	if !ok || sema.UnwrapOptionalType(so) != sema.NeverType {
+		return false
+	}
+	return sema.UnwrapOptionalType(t) == sema.AnyResourceType
+}
+
+// ft2Triple: S has `Never` as a proper component and U mentions AnyResource.
+func ft2Triple(s, x sema.Type) bool {
+	return s != sema.NeverType && tgen.Has(s, isNever) && tgen.Has(x, isAnyResource)
 }
 
 func relations(u *tgen.Universe, s, t sema.Type) (out rel) {
@@ -46,18 +90,28 @@ func relations(u *tgen.Universe, s, t sema.Type) (out rel) {
 	step := "convert"
 	p := guard(func() {
 		ss, st = tgen.Static(s), tgen.Static(t)
-		out.eqSema = s.Equal(t)
-		out.eqStat = ss.Equal(st)
+		out.eq = s.Equal(t)
+		if !out.eq {
+			// the three rule sets are compared the way cadence's own comparison mode
+			// does: on non-Equal pairs, without the equality shortcut
+			step = rawNames[0]
+			out.raw[0] = sema.CheckSubTypeWithoutEquality(s, t)
+			step = rawNames[1]
+			out.raw[1] = sema.CheckSubTypeWithoutEquality_gen(s, t)
+			step = rawNames[2]
+			if knownFT1 && ft1(ss, st) {
+				out.ft1 = true
+				out.raw[2] = out.raw[0]
+			} else {
+				out.raw[2] = interpreter.CheckSubTypeWithoutEquality_gen(u.Inter, ss, st)
+			}
+		}
 		step = relNames[0]
 		out.r[0] = sema.IsSubTypeWithoutComparison(s, t)
 		step = relNames[1]
-		out.r[1] = out.eqSema || sema.CheckSubTypeWithoutEquality_gen(s, t)
+		out.r[1] = interpreter.IsSubType(u.Inter, ss, st)
 		step = relNames[2]
-		out.r[2] = out.eqStat || interpreter.CheckSubTypeWithoutEquality_gen(u.Inter, ss, st)
-		step = relNames[3]
-		out.r[3] = interpreter.IsSubType(u.Inter, ss, st)
-		step = relNames[4]
-		out.r[4] = interpreter.IsSubTypeOfSemaType(u.Inter, ss, t)
+		out.r[2] = interpreter.IsSubTypeOfSemaType(u.Inter, ss, t)
 	})
 	if p != "" {
 		out.panicAt = step + ": " + p
@@ -65,22 +119,33 @@ func relations(u *tgen.Universe, s, t sema.Type) (out rel) {
 	return
 }
 
-// pairProblem returns "" when the five implementations agree on (s,t) and the
-// pair laws hold.
+// pairProblem returns "" when all implementations agree on (s,t) and the pair
+// laws hold.
 func pairProblem(u *tgen.Universe, s, t sema.Type) (string, rel) {
 	r := relations(u, s, t)
 	if r.panicAt != "" {
 		return "panic in " + r.panicAt, r
 	}
-	if r.eqSema != r.eqStat {
-		return fmt.Sprintf("sema Equal=%v but static Equal=%v", r.eqSema, r.eqStat), r
+	if !r.eq {
+		for i := 1; i < 3; i++ {
+			if r.raw[i] != r.raw[0] {
+				return fmt.Sprintf("%s = %v but %s = %v", rawNames[0], r.raw[0], rawNames[i], r.raw[i]), r
+			}
+		}
+		if r.r[0] != r.raw[0] {
+			return fmt.Sprintf("%s = %v but %s = %v on non-Equal types", relNames[0], r.r[0], rawNames[0], r.raw[0]), r
+		}
 	}
-	for i := 1; i < 5; i++ {
+	for i := 1; i < 3; i++ {
 		if r.r[i] != r.r[0] {
+			if knownFT2 && ft2Pair(s, t) {
+				r.ft2 = true
+				continue
+			}
 			return fmt.Sprintf("%s = %v but %s = %v", relNames[0], r.r[0], relNames[i], r.r[i]), r
 		}
 	}
-	if r.eqSema && !r.r[0] {
+	if r.eq && !r.r[0] {
 		return "not reflexive (Equal types are not subtypes)", r
 	}
 	if s == sema.NeverType && !r.r[0] {
@@ -102,7 +167,7 @@ type c08 struct {
 }
 
 func nontrivialPair(s, t sema.Type, r rel) bool {
-	if r.eqSema {
+	if r.eq {
 		return false
 	}
 	interesting := func(x sema.Type) bool {
@@ -157,6 +222,12 @@ func (c *c08) checkPair(u *tgen.Universe, s, t sema.Type, mode string) rel {
 	nt := nontrivialPair(s, t, r)
 	c.rec.CaseH(nt, evid.Hash("p", u.Seed, s.ID(), t.ID()))
 	c.pairs++
+	if r.ft1 {
+		c.rec.Excluded("FT1")
+	}
+	if r.ft2 {
+		c.rec.Excluded("FT2")
+	}
 	if r.r[0] {
 		c.related++
 	}
@@ -196,6 +267,10 @@ func (c *c08) checkTriple(u *tgen.Universe, s, t, x sema.Type, mode string) {
 		c.rec.Sample("triple/"+mode, map[string]any{"universe": u.Seed, "s": typeStr(s), "t": typeStr(t), "u": typeStr(x)})
 	}
 	if !sub(s, x) {
+		if knownFT2 && ft2Triple(s, x) {
+			c.rec.Excluded("FT2")
+			return
+		}
 		// minimise: shrink each of the three while the triple stays a counterexample
 		bad := func(a, b, d sema.Type) bool { return sub(a, b) && sub(b, d) && !sub(a, d) }
 		for round := 0; round < 100; round++ {
@@ -236,6 +311,19 @@ func TestC08(t *testing.T) {
 		"Non-trivial pair: not Equal and one side has depth >= 2 or is a reference/intersection/function; non-trivial triple: both premises hold "+
 		"with no two adjacent types Equal. Distinct by (universe, ID(S), ID(T)[, ID(U)]).")
 	c := &c08{t: t, rec: rec}
+	if rec.Known("FT1") {
+		u0 := tgen.NewUniverse(0)
+		a, b := sema.NewInclusiveRangeType(nil, sema.Int16Type), sema.NewInclusiveRangeType(nil, sema.IntegerType)
+		rec.ReportKnown("FT1", relations(u0, a, b).panicAt != "")
+		knownFT1 = true
+	}
+	if rec.Known("FT2") {
+		arrNever := sema.NewVariableSizedType(nil, sema.NeverType)
+		arrR := sema.NewVariableSizedType(nil, tgen.NewUniverse(0).Resources[0])
+		still := sub(arrNever, arrR) && sub(arrR, sema.AnyResourceType) && !sub(arrNever, sema.AnyResourceType)
+		rec.ReportKnown("FT2", still)
+		knownFT2 = true
+	}
 
 	if f := evid.ReplayFile(); f != "" {
 		var cs c08Case
